@@ -152,8 +152,18 @@ func queryHeightDefaults(r *Run, rule string) {
 				return
 			}
 			found = true
-			ok2, _ := HasAtom(P.Guards(st, 0), `^\(0 == param:req\.Height\)$`)
-			r.Check(ok2 && P.TermAt(st.Val, st).String() == "(*baseapp.BaseApp).LastBlockHeight(param:app)", rule, n+"/default-only-when-unset", P.InstrPos(st), "req.Height = LastBlockHeight() under req.Height == 0", n+" overwrites the requested height under {"+strings.Join(atomStrings(P.Guards(st, 0)), " ; ")+"}: an explicit height would be replaced (or a missing one left at 0)")
+			// the stored value may come out of a value-selecting helper: each of its alternatives is judged
+			for _, a := range P.StoredAlternatives(st.Val, st) {
+				isZero, _ := HasAtom(a.G, `^\(0 == param:req\.Height\)$`)
+				v := a.T.String()
+				if v == "param:req.Height" {
+					// the requested height is kept: only when one was given
+					notZero, _ := HasAtom(a.G, `^!\(0 == param:req\.Height\)$`)
+					r.Check(notZero, rule, n+"/default-only-when-unset", P.InstrPos(st), "req.Height kept under req.Height != 0", n+" keeps the request's height under {"+strings.Join(atomStrings(a.G), " ; ")+"}: a missing height would be left at 0")
+					continue
+				}
+				r.Check(isZero && v == "(*baseapp.BaseApp).LastBlockHeight(param:app)", rule, n+"/default-only-when-unset", P.InstrPos(st), "req.Height = LastBlockHeight() under req.Height == 0", n+" overwrites the requested height with "+oneLine(v)+" under {"+strings.Join(atomStrings(a.G), " ; ")+"}: an explicit height would be replaced (or a missing one left at 0)")
+			}
 		})
 		if !found {
 			r.Viol(rule, n+"/default-only-when-unset", P.Pos(f.Pos()), n+" no longer injects the latest height into the request")
